@@ -1270,6 +1270,7 @@ def tr_api_tree(node, meta=None):
     t = Tree(node, metadata=dict(meta or {'k': 'v'}))
     ft = ab.check_tree_roundtrip(node, meta)
     return {'kind': 'api-tree', 'tree': ft, 'nodes': [ab.atom(n[0]) for n in t.nodes()], 'walk': [list(p) for p, _ in t.walk()],
+            'str': str(t), 'repr': repr(t),
             'eq_without_meta': bool(t == Tree(node, metadata={'other': 'x'})), 'eq_self': bool(t == node)}
 
 
